@@ -27,11 +27,11 @@ def name_of(cfg):
 def bounds(tier):
     fams = [f for f in simalpha.FAMILIES if f != "core"]
     b = [("all families A=2 K=1", [c for f in fams for c in simalpha.enum(f, 2, 1)]),
-         ("condvar + mixed A=3 K=1", [c for f in ("condvar", "mixed") for c in simalpha.enum(f, 3, 1)])]
+         ("async + lifecycle A=3 K=1", [c for f in ("async", "lifecycle") for c in simalpha.enum(f, 3, 1)])]
     if tier == "quick":
         return b
+    b.append(("condvar + mixed + activities + locks A=3 K=1", [c for f in fams if f not in ("async", "lifecycle") for c in simalpha.enum(f, 3, 1)]))
     b.append(("core (P, G, CS, SA, kill) A=2 K=2", simalpha.enum("core", 2, 2)))
-    b.append(("all families A=3 K=1", [c for f in fams if f not in ("condvar", "mixed") for c in simalpha.enum(f, 3, 1)]))
     for f in ("condvar", "async", "mixed", "activities"):
         b.append(("%s A=2 K=2" % f, simalpha.enum(f, 2, 2)))
     return b
@@ -39,6 +39,32 @@ def bounds(tier):
 
 def build_prog(case):
     return simalpha.build_prog(case)
+
+
+def classify(base, out):
+    """'order' when both runs ended normally with exactly the same actor records and the same multiset of signal
+    records — only the order of (simultaneous) signal records differs"""
+    if base[1] != 0 or out[1] != 0:
+        return "status"
+    a, b = base[0].splitlines(), out[0].splitlines()
+    if [l for l in a if l[:2] == "A "] != [l for l in b if l[:2] == "A "]:
+        return "actors"
+    strip = lambda l: l.split(" ", 2)[2]          # drop the sequence number of an S record
+    sa, sb = [strip(l) for l in a if l[:2] == "S "], [strip(l) for l in b if l[:2] == "S "]
+    if sorted(sa) == sorted(sb) and [l.rsplit(" ", 1)[1] for l in sa] == [l.rsplit(" ", 1)[1] for l in sb]:
+        return "order"
+    return "signals"
+
+
+def signal_kinds(base, out):
+    strip = lambda l: l.split(" ", 2)[2]
+    a, b = [strip(l) for l in base.splitlines() if l[:2] == "S "], [strip(l) for l in out.splitlines() if l[:2] == "S "]
+    return ",".join(sorted({x.split(" ")[0] for x, y in zip(a, b) if x != y}))
+
+
+def diff_of(base, out):
+    import difflib
+    return list(difflib.unified_diff(base.splitlines(), out.splitlines(), "raw/1/futex", "other", lineterm="", n=0))[:40]
 
 
 def run_cfg(binary, packs, cfg, tag):
@@ -55,7 +81,7 @@ def run(ctx):
         if ctx.deadline.left() < 30 and done:
             exhaustive = False
             break
-        if rate and len(cases) / rate * 2.0 > ctx.deadline.left() - 30:
+        if not ctx.quick and rate and len(cases) / rate * 2.0 > ctx.deadline.left() - 30:
             exhaustive = False
             break
         t_b = time.time()
@@ -77,7 +103,7 @@ def run(ctx):
             for gi, g in enumerate(groups):
                 if res[cfg][gi] != ref[gi]:
                     nd += 1
-                    suspects.append((cfg, [cases[j] for j in g]))
+                    suspects.append((cfg, [cases[j] for j in g], ref[gi], res[cfg][gi]))
         evaluations += len(cases) * len(CONFIGS)
         programs += len(cases)
         per[name] = {"programs": len(cases), "packs": len(groups), "pack_runs_differing": nd, "t_s": round(time.time() - ctx.t0, 1)}
@@ -89,7 +115,43 @@ def run(ctx):
             samples.append({"case": simalpha.text(c), "actors": build_prog(c)["actors"]})
     simlib.cleanup("c02")
     vio, seen = [], set()
-    for cfg, packcases in suspects:
+    order_only = [x for x in suspects if classify(x[2], x[3]) == "order"]
+    others = [x for x in suspects if classify(x[2], x[3]) != "order"]
+    if order_only:
+        # same records everywhere, only the order of simultaneous signal records differs: one stable key for the whole class
+        cfgs = sorted({name_of(x[0]) for x in order_only})
+        par = all(x[0][1] > 1 for x in order_only)
+        # confirm on the pack that differed most often, under up to 3 of the configurations in which it differed
+        count = {}
+        for x in order_only:
+            count.setdefault(simalpha.text(x[1][0]), []).append(x)
+        best = max(count.values(), key=len)
+        cfg, packcases, base_o, out_o = best[0]
+        packp = dict(simlib.pack([build_prog(c) for c in packcases]), signals=True)
+        base = [(c01.observable(t), st) for (t, st) in simlib.run_jobs(binary, [(packp, argv_of(CONFIGS[0]), ())] * 8)]
+        if len(set(base)) != 1:
+            common.log("C02: the reference configuration itself is not reproducible on this pack (C01's subject)")
+            raise SystemExit(2)
+        tried, n, total = [], 0, 0
+        for x in best[:3]:
+            outs = [(c01.observable(t), st) for (t, st) in simlib.run_jobs(binary, [(packp, argv_of(x[0]), ())] * 40)]
+            k = sum(1 for o in outs if o != base[0])
+            tried.append("%s: %d/40" % (name_of(x[0]), k))
+            n, total = n + k, total + 40
+        if n == 0:
+            common.log("C02: %d differing pack runs, but none of %d re-runs differs (%s): not reproducible, harness bug?" % (
+                len(order_only), total, "; ".join(tried)))
+            raise SystemExit(2)
+        what = ("%d pack runs over %d configurations (%s) have the same records as raw/1/futex but a different order of "
+                "simultaneous signal records (%s); re-running the pack that differed most often: %s differ (intermittent: "
+                "depends on the OS schedule of the worker threads)" % (
+                    len(order_only), len(cfgs), ", ".join(cfgs[:6]) + ("..." if len(cfgs) > 6 else ""),
+                    signal_kinds(base_o[0], out_o[0]), "; ".join(tried)))
+        key = "order of simultaneous signal records (%s) differs from raw/1/futex, %s" % (
+            signal_kinds(base_o[0], out_o[0]), "only with nthreads>1" if par else "also with nthreads=1")
+        vio.append(common.Violation(key, what, {"case": packcases[0], "cfg": list(cfg), "pack": packcases,
+                                                "diff": diff_of(base_o[0], out_o[0])}))
+    for cfg, packcases, base_o, out_o in others:
         if len(seen) >= 8:
             break
         # narrow down: members alone under this configuration vs the reference configuration
@@ -108,27 +170,28 @@ def run(ctx):
             seen.add(key)
             p = dict(build_prog(culprit), signals=True)
             base = simlib.run_one(binary, p, argv=argv_of(CONFIGS[0]), raw=True)
-            n = sum(1 for _ in range(5) if (lambda r: (c01.observable(r[0]), r[1]))(simlib.run_one(binary, p, argv=argv_of(cfg), raw=True))
-                    != (c01.observable(base[0]), base[1]))
+            outs = simlib.run_jobs(binary, [(p, argv_of(cfg), ())] * 10)
+            n = sum(1 for r in outs if (c01.observable(r[0]), r[1]) != (c01.observable(base[0]), base[1]))
             if n == 0:
                 common.log("C02: difference did not reproduce (harness bug?): %s" % key)
                 raise SystemExit(2)
-            vio.append(common.Violation(key, "alone, 5 runs under %s: %d differ from raw/1/futex (%s)" % (
-                name_of(cfg), n, "always" if n == 5 else "intermittently"), {"case": culprit, "cfg": list(cfg), "program": build_prog(culprit)}))
+            vio.append(common.Violation(key, "alone, 10 runs under %s: %d differ from raw/1/futex (%s)" % (
+                name_of(cfg), n, "always" if n == 10 else "intermittently"), {"case": culprit, "cfg": list(cfg), "program": build_prog(culprit)}))
         else:
-            key = "pack-of=%s cfg=%s => log differs from raw/1/futex" % (simalpha.text(packcases[0]), name_of(cfg))
+            key = "pack-of=%s cfg=%s => actor logs differ from raw/1/futex" % (simalpha.text(packcases[0]), name_of(cfg))
             if key in seen:
                 continue
             seen.add(key)
-            packp = simlib.pack([build_prog(c) for c in packcases])
-            base = run_cfg(binary, [packp], CONFIGS[0], "c02c")[0]
-            n = sum(1 for _ in range(5) if run_cfg(binary, [packp], cfg, "c02c")[0] != base)
-            simlib.cleanup("c02c")
+            packp = dict(simlib.pack([build_prog(c) for c in packcases]), signals=True)
+            base = simlib.run_one(binary, packp, argv=argv_of(CONFIGS[0]), raw=True)
+            outs = simlib.run_jobs(binary, [(packp, argv_of(cfg), ())] * 40)
+            n = sum(1 for r in outs if (c01.observable(r[0]), r[1]) != (c01.observable(base[0]), base[1]))
             if n == 0:
-                common.log("C02: difference did not reproduce (harness bug?): %s" % key)
+                common.log("C02: difference did not reproduce in 40 runs (harness bug?): %s" % key)
                 raise SystemExit(2)
-            vio.append(common.Violation(key, "the pack of %d programs, 5 runs under %s: %d differ from raw/1/futex (%s)" % (
-                len(packcases), name_of(cfg), n, "always" if n == 5 else "intermittently"), {"case": packcases[0], "cfg": list(cfg), "pack": packcases}))
+            vio.append(common.Violation(key, "the pack of %d programs, 40 runs under %s: %d differ from raw/1/futex (%s)" % (
+                len(packcases), name_of(cfg), n, "always" if n == 40 else "intermittently"),
+                {"case": packcases[0], "cfg": list(cfg), "pack": packcases, "diff": diff_of(base_o[0], out_o[0])}))
     coverage = {
         "evaluations": evaluations, "distinct_nontrivial": len(nontrivial),
         "rule": "every enumerated program run under all 27 factory/nthreads/synchro configurations (evaluations = programs x 27); "
@@ -148,12 +211,28 @@ def run(ctx):
 
 def replay(ctx, rf):
     binary = simlib.build()
+    if "program" in rf["case"] and "case" not in rf["case"]:      # a hand-written program: 60 runs under thread/2/posix
+        p = rf["case"]["program"]
+        cfg = tuple(rf["case"].get("cfg", ("thread", 2, "posix")))
+        b0 = simlib.run_one(binary, p, argv=argv_of(CONFIGS[0]), raw=True)
+        outs = [(c01.observable(t), st) for (t, st) in simlib.run_jobs(binary, [(p, argv_of(cfg), ())] * 60)]
+        n = sum(1 for o in outs if o != (c01.observable(b0[0]), b0[1]))
+        print("60 runs under %s: %d differ from raw/1/futex" % (name_of(cfg), n))
+        other = next((o for o in outs if o != (c01.observable(b0[0]), b0[1])), None)
+        if other:
+            print("\n".join(diff_of(c01.observable(b0[0]), other[0])))
+        return 0 if n == 0 else 1
     case, cfg = rf["case"]["case"], tuple(rf["case"]["cfg"])
     if rf["case"].get("pack"):
-        packp = simlib.pack([build_prog(c) for c in rf["case"]["pack"]])
-        base = run_cfg(binary, [packp], CONFIGS[0], "c02r")[0]
-        other = run_cfg(binary, [packp], cfg, "c02r")[0]
-        simlib.cleanup("c02r")
+        packp = dict(simlib.pack([build_prog(c) for c in rf["case"]["pack"]]), signals=True)
+        b0 = simlib.run_one(binary, packp, argv=argv_of(CONFIGS[0]), raw=True)
+        base = (c01.observable(b0[0]), b0[1])
+        outs = [(c01.observable(t), st) for (t, st) in simlib.run_jobs(binary, [(packp, argv_of(cfg), ())] * 40)]
+        n = sum(1 for o in outs if o != base)
+        print("pack of %d programs, 40 runs under %s: %d differ from raw/1/futex" % (len(rf["case"]["pack"]), name_of(cfg), n))
+        other = next((o for o in outs if o != base), base)
+        print("\n".join(diff_of(base[0], other[0])))
+        return 0 if n == 0 else 1
     else:
         p = dict(build_prog(case), signals=True)
         a, b = simlib.run_one(binary, p, argv=argv_of(CONFIGS[0]), raw=True), simlib.run_one(binary, p, argv=argv_of(cfg), raw=True)
